@@ -86,6 +86,9 @@ MUTANTS = [
     ("block clamped with the number of columns", "AegeanTools/BANE.py",
      "    data_row_max = min(shape[0], ymax + box_size[0]//2)",
      "    data_row_max = min(shape[1], ymax + box_size[0]//2)", "C07-R7"),
+    ("one party too many", "AegeanTools/BANE.py",
+     "barrier = ctx.Barrier(parties=len(ymaxs))",
+     "barrier = ctx.Barrier(parties=len(ymaxs) + 1)", "C07-R1"),
 ]
 TWINS = [
     ("processes exactly parties", "AegeanTools/BANE.py",
@@ -318,6 +321,8 @@ def r1(ctx, parent, bar, pool, tasks_expr):
               "(len(%s) or the length of one of the zipped stripe lists %s)"
               % (norm(parties), norm(tasks_expr), lists),
               {"parties": norm(parties), "tasks": norm(tasks_expr)}, bar)
+    if not ok_par:
+        return      # the comparison below presupposes the right arity
     # processes >= parties provable?
     qtxt = norm(procs).replace(" ", "")
     proven = qtxt == ptxt
